@@ -139,16 +139,17 @@ def build_model(cells, names=None, default_sheet='Sheet1', build_code=True,
         model = mc.read_and_parse_dict(
             allc, default_sheet=default_sheet, build_code=False)
         order = []
-    for sheet in order:
+    for k, sheet in enumerate(order):
         model = mc.read_and_parse_dict(
-            per_sheet[sheet], default_sheet=sheet, build_code=False)
+            per_sheet[sheet], default_sheet=sheet,
+            build_code=(build_code == 'partial' and k == 0))
     if names:
         mc.defined_names = dict(names)
         mc.build_defined_names()
         mc.link_cells_to_defined_names()
     for a, v in late.items():
         model.set_cell_value(a, v)
-    if build_code:
+    if build_code is True:
         model.build_code()
     return model
 
